@@ -402,7 +402,13 @@ func (s *Set) c11(w *simapi.Write, v *simapi.View) {
 				}
 				s.count("c11_ready_persistence_checked", 1)
 				if s.c11StaleReady >= 3 {
-					s.violate("C11", "c11:stays-ready-while-unsatisfied", fmt.Sprintf("batch %d stays Ready over %d consecutive BatchRelease status writes with %d updated / %d ready pods, plan calls for %d of %d", cur, s.c11StaleReady, tot, ready, planned, R), w, nil)
+					fp := "c11:stays-ready-while-unsatisfied"
+					if cr, ur := simapi.Str(wl, "status.currentRevision"), simapi.Str(wl, "status.updateRevision"); cr != "" && cr == ur {
+						// every pod had been updated (the workload reports the update revision as current) when the user
+						// resized it: the controller takes the workload for promoted and no longer looks at its size
+						fp += ":resized-after-every-pod-was-updated"
+					}
+					s.violate("C11", fp, fmt.Sprintf("batch %d stays Ready over %d consecutive BatchRelease status writes with %d updated / %d ready pods, plan calls for %d of %d", cur, s.c11StaleReady, tot, ready, planned, R), w, nil)
 				}
 				return
 			}
@@ -495,8 +501,33 @@ func (s *Set) c18(w *simapi.Write, v *simapi.View) {
 		if hasFinalizer(w.Before, f) && (w.After == nil || !hasFinalizer(w.After, f)) {
 			s.count("c18_finalizer_removals_checked", 1)
 			s.addSet("c18_removals", "Rollout")
-			if res := s.residue(v, true); len(res) > 0 {
-				s.violate("C18", "c18:rollout-finalizer-removed-before-cleanup:"+firstWord(res[0]), fmt.Sprintf("%s removed the Rollout finalizer while cleanup is incomplete: %v", w.Actor, res), w, res)
+			res := s.residue(v, true)
+			if s.S.TRCR {
+				// the routes belong to the TrafficRouting resource, which has its own finalizer and cleans up after the
+				// Rollout has let go of it; only what the Rollout itself configured is its to clean
+				var own []string
+				for _, r := range res {
+					if !strings.HasPrefix(r, "canary-ingress") && !strings.HasPrefix(r, "route-references-canary") && !strings.HasPrefix(r, "httproute-") && !strings.HasPrefix(r, "custom-object") {
+						own = append(own, r)
+					}
+				}
+				res = own
+			}
+			if len(res) > 0 {
+				// the recorded "no live BatchRelease when the exit arrived" family (see C05) shows here too: the cleanup
+				// has nobody to delegate to and is reported done
+				cls := ""
+				switch {
+				case !s.brCreatedSinceRelease:
+					cls = "before-batchrelease-created"
+				case s.brAtExit == "none" || s.brAtExit == "deleting":
+					cls = "while-batchrelease-being-removed"
+				}
+				if cls != "" {
+					s.violate("C18", "c18:rollout-finalizer-removed-when-no-live-batchrelease:"+cls, fmt.Sprintf("%s removed the Rollout finalizer while cleanup is incomplete (%s): %v", w.Actor, cls, res), w, res)
+				} else {
+					s.violate("C18", "c18:rollout-finalizer-removed-before-cleanup:"+firstWord(res[0]), fmt.Sprintf("%s removed the Rollout finalizer while cleanup is incomplete: %v", w.Actor, res), w, res)
+				}
 			}
 		}
 	case "BatchRelease":
